@@ -1,5 +1,4 @@
 SPECIFICATION TraceSpec
-CONSTANTS AllowIgnoredDbError = TRUE
 INVARIANTS NoWrongResult
 POSTCONDITION TraceAccepted
 CHECK_DEADLOCK FALSE
